@@ -189,7 +189,7 @@ func runSmall(c SmallCase, rec *h.Rec) error {
 	return nil
 }
 
-var propSmall = h.NewProp("TestPropExtendSmallNorm", h.Budget{Quick: 800, Thorough: 20000}, genSmall, runSmall)
+var propSmall = h.NewProp("TestPropExtendSmallNorm", h.Budget{Quick: 800, Thorough: 10000}, genSmall, runSmall)
 
 func TestPropExtendSmallNorm(t *testing.T) { propSmall.Check(t) }
 
